@@ -50,15 +50,20 @@ VALUES = {
                {"": 0}, {"list": list(range(100, 130))}, {"text": "multi\nline in nested"}, [{"x": "a\tb"}, {"y": [False, 0.0]}],
                {"z": 7001, "a": "leafA", "m": {"q": 7002, "b": ["leafB", 7003]}}, [""], {"k": []},
                {"\u00fcml": "\u00e4\u00f6", "long key with spaces": "v"}, {"pct": "100%", "%d": ["%s", "50%% off"]}, ["%", {"{}": "{0}"}],
-               {"a % b": {"%(x)s": "%%"}}, ["C:\\dir", {"\\": "%5.2f"}]],
-    "number": [0, 1, -1, 42, 3.14, -0.5, 1e100, 2 ** 63, 2 ** 64 + 1, 1.5e-07, 0.0, 123456789.123, -17, 1e-300, 255],
+               {"a % b": {"%(x)s": "%%"}}, ["C:\\dir", {"\\": "%5.2f"}], {"sep": "line\u2028sep", "half": "\ud83d", "\u0085": ["nul\x00"]},
+               [[[[[[[[[[[[[[[[[[[[[[[[[[[[[[[[[[[[[[[["forty deep"]]]]]]]]]]]]]]]]]]]]]]]]]]]]]]]]]]]]]]]],
+               {"big": 10 ** 40, "emoji": "\U0001f600"}],
+    "number": [0, 1, -1, 42, 3.14, -0.5, 1e100, 2 ** 63, 2 ** 64 + 1, 1.5e-07, 0.0, 123456789.123, -17, 1e-300, 255, 10 ** 40, -(10 ** 30) - 7,
+               -(2 ** 63) - 1, 1.7976931348623157e308, 5e-324, 3 * 10 ** 300 + 1],
     "bool": [True, False],
     "null": [None],
     "meta": ["%", "%%", "%s", "%d items", "50%% off", "100%", "%(x)s", "a % b", "{}", "{0}", "{name}", "{{}}", "100% {sure} \\o/",
              "C:\\dir\\file", "\\", "%5.2f", "$HOME ${x}", "%\u00e9", "%r and %%s", "{!r:>{width}}", "a\\\\b", "\\x41 \\u00e9"],
     "nonascii": ["h\u00e9llo", "\u65e5\u672c\u8a9e\u30c6\u30ad\u30b9\u30c8", "emoji \U0001f600 here", "\u00dcn\u00efc\u00f6d\u00e9",
                  "mixed ascii \u0438 \u043a\u0438\u0440\u0438\u043b\u043b\u0438\u0446\u0430", "line\u2028sep", "nbsp\u00a0here", "\u0080ctl",
-                 "lone\ud800surrogate", "\u00e9\n\u00e8"],
+                 "lone\ud800surrogate", "\u00e9\n\u00e8", "\udc00", "half pair \ud83d", "para\u2029sep", "nel\u0085here", "\U0001f600",
+                 "\U00010348 gothic", "tag\U000e0001char", "nul\x00byte", "\x01\x02 ctl", "bell\x07", "\x7f del", "esc\x1b[31mred",
+                 "vt\x0bff\x0cend", "fs\x1cgs\x1drs\x1eus\x1f", "bom\ufeffzwsp\u200b", "\ufffd\uffff"],
 }
 FIRST_VALUES = {"action_type": ["app:task", "sys:io:read", "t", "\u0442\u0438\u043f:x", "app:100%", "app:{}"],
                 "message_type": ["app:event", "my:message", "eliot:traceback", "", "app:%s"],
@@ -138,8 +143,11 @@ def parse_header(msg, text):
     return errs, rest[m.end():]
 
 
+LINEBREAKS = "\n\r\x0b\x0c\x1c\x1d\x1e\x85\u2028\u2029"      # what str.splitlines() (and most viewers) treat as the end of a line
+
+
 def has_linebreak(s):
-    return "\n" in s or "\r" in s
+    return any(c in s for c in LINEBREAKS)
 
 
 def name_forms(name):
@@ -490,17 +498,113 @@ def emitted_chunk(args):
 
 # ---------------------------------------------------------------------------------------------------------------------
 # (b) eliot-prettyprint
+def sweep_messages():
+    """The witness sweep: EVERY witness of every table at least once, on its own, independent of any random draw -- a value
+    at top level, inside a nested structure and (text) as a key of a nested dictionary; every field name; every value of
+    the type/status fields; every odd task_uuid; task levels and timestamps in rotation."""
+    msgs = []
+
+    def base():
+        i = len(msgs)
+        return {"task_uuid": "5eee9000-0000-4000-a000-%012d" % i, "task_level": LEVELS[i % len(LEVELS)], "timestamp": STAMPS[i % len(STAMPS)]}
+    for cls in sorted(VALUES):
+        for v in VALUES[cls]:
+            msgs.append(dict(base(), message_type="app:event", val=v))
+            if isinstance(v, str):
+                msgs.append(dict(base(), action_type="app:task", action_status="started", val={"k": [v, {"in": v}]}))
+                msgs.append(dict(base(), val={v: 0, "other": [1]}))
+            elif not isinstance(v, (list, dict)):
+                msgs.append(dict(base(), val=[{"n": v}]))
+    for slot in sorted(NAMES):
+        for name in NAMES[slot]:
+            m = base()
+            m[name] = 1
+            msgs.append(m)
+    for f in FIRST:
+        for v in FIRST_VALUES[f]:
+            m = base()
+            m[f] = v
+            msgs.append(m)
+    for u in ["u", "task-1", "\u00fcn\u00ef-uuid", "abc123", "0", "a b", "100%", "{0}"]:
+        msgs.append(dict(base(), task_uuid=u, message_type="m"))
+    return msgs
+
+
+def sweep_chunk(_):
+    """Function level of the sweep: pretty_format / compact_format on every sweep message, eliot.filter identity on them."""
+    msgs = sweep_messages()
+    lines = [json.dumps(m) for m in msgs]
+    res = exec_jobs({"format": msgs, "filter": [{"expr": "J", "lines": lines}, {"expr": "dict(J)", "lines": lines}]})
+    out = {"n": len(msgs), "viol": [], "f6": 0, "drift": [], "keys": [], "sample": None, "lines": [], "filter_viol": []}
+    for i, (msg, r) in enumerate(zip(msgs, res["format"])):
+        viol, f6, drift = judge_formats(msg, r)
+        if f6:
+            out["f6"] += 1
+        for clause, detail in viol:
+            out["viol"].append({"clause": clause, "detail": detail, "message": msg, "record": "witness sweep"})
+        out["drift"].extend(drift[:1])
+        out["keys"].append((["sweep", i], True))
+    for fr, expr in zip(res["filter"], ("J", "dict(J)")):
+        for how in ("run", "run_text", "main"):
+            errs = judge_filter_output(fr[how], fr[how + "_exc"], [(m, "whole") for m in msgs])
+            for e in errs[:1]:
+                out["filter_viol"].append({"clause": "eliot.filter %s (%s) on the witness sweep: %s" % (expr, how, e), "expr": expr, "lines": lines})
+    out["drift"] = sorted(set(out["drift"]))[:3]
+    return out
+
+
+def sweep_encodings(msg):
+    """The JSON lines a sweep message is fed as: all-ASCII (every non-ASCII character escaped, lone surrogates included) and,
+    when that differs and is possible, raw UTF-8."""
+    a = json.dumps(msg).encode("ascii")
+    encs = [("a", a)]
+    if not _has_surrogate(msg):
+        u = json.dumps(msg, ensure_ascii=False, separators=(",", ":")).encode("utf-8")
+        if u != a:
+            encs.append(("u", u))
+    return encs
+
+
+def run_inproc(nodes, keys):
+    """prettyprint._main() in repository subprocesses (sys.stdin / sys.stdout replaced, module imported afresh per stream)."""
+    def inproc(chunk):
+        jobs = []
+        for key in chunk:
+            n = nodes[key]
+            args = ["-c"] if key[0] == "compact" else []
+            jobs.append({"args": args, "b64": base64.b64encode(stream_bytes(n["lines"])).decode()})
+            if n["unterm"]:
+                jobs.append({"args": args, "b64": base64.b64encode(stream_bytes(n["lines"], False)).decode()})
+        res = iter(exec_jobs({"pp": jobs})["pp"])
+        got = {}
+        for key in chunk:
+            r = next(res)
+            got[key] = [(r["rc"], base64.b64decode(r["out_b64"]), r["err"]), None]
+            if nodes[key]["unterm"]:
+                r = next(res)
+                got[key][1] = (r["rc"], base64.b64decode(r["out_b64"]), r["err"])
+        return got
+    nchunk = max(1, len(keys) // WORKERS + 1)
+    out = {}
+    with ThreadPoolExecutor(WORKERS) as ex:
+        for g in ex.map(inproc, [keys[i:i + nchunk] for i in range(0, len(keys), nchunk)]):
+            out.update(g)
+    return out
+
+
 PP_CODE = "import sys; sys.argv = ['eliot-prettyprint'] + %r; from eliot.prettyprint import _main; _main()"
 MISSING = [b"{}", b'{"a": 1}', b'{"task_uuid": "u", "task_level": [1]}', b'{"task_uuid": "u", "timestamp": 1.5}',
            b'{"task_level": [1], "timestamp": 1.5, "message_type": "m"}', b'{"task_uuid": "u"}', b'{"timestamp": 0}',
            b'{"Task_uuid": "u", "task_level": [1], "timestamp": 1.5}', b'{"msg": "\xc3\xbc", "nested": {"task_uuid": "u", "task_level": [1], "timestamp": 1}}']
-SCALARS = [b"5", b"-1.5e3", b'"a string"', b"true", b"false", b"0", b'""', b"12345678901234567890123", b'"task_uuid"', b"1.0", b' 7 ']
+SCALARS = [b"5", b"-1.5e3", b'"a string"', b"true", b"false", b"0", b'""', b"12345678901234567890123", b'"task_uuid"', b"1.0", b' 7 ',
+           b'"\\ud83d"', b'"\\u2028"', b"1" * 400, b'"100% {}"']
 ARRAYS = [b"[]", b"[1, 2]", b'[{"task_uuid":"u","task_level":[1],"timestamp":1.0}]', b"[[]]", b'["task_uuid","task_level","timestamp"]',
           b'[null]', b' [1,\t2] ']
 NULLS = [b"null", b" null ", b"null\r"]
 TEXTS = [b"hello", b"{'a': 1}", b'{"a": 1', b"Traceback (most recent call last):", b"2026-10-02 12:00:00 INFO something happened",
          b'{"a":1}{"b":2}', b'{"task_uuid": "u", "task_level": [1], "timestamp": 1.0', b"<xml/>", b"\x00\x01binary", "\u00fcn\u00efcode text".encode("utf-8"),
          b"nul", b"[1, 2", b"{,}", b"'single'", b"undefined", b"Not JSON: b'x'", b"1 2",
+         b"1" * 5000,                          # a JSON number Python refuses to convert (more than 4300 digits): ValueError
          b"[" * 3000, b'{"a":' * 2500]        # nested too deeply for the decoder (RecursionError, fixed in 0a... "fix: eliot-prettyprint survives...")
 BADUTF8 = [b"\xff\xfe", b"\x80abc", b'{"task_uuid": "\xff"}', b"caf\xe9", b"\xc3", b"\xed\xa0\x80", b"\xf8\x88\x80\x80\x80", b'"\xe9"', b"{\xff}"]
 EMPTIES = [b"", b"   ", b"\t", b"\r"]
@@ -791,7 +895,7 @@ def run(prop, tier):
         f6_count = 0
         with ProcessPoolExecutor(WORKERS) as ex:
             lay_res = list(ex.map(layout_chunk, chunks))
-            em_res = list(ex.map(emitted_chunk, emitted))
+            em_res = list(ex.map(emitted_chunk, emitted)) + list(ex.map(sweep_chunk, [0]))
         for o in lay_res + em_res:
             for key, nt in o["keys"]:
                 rep.count_case(key, nt)
@@ -842,34 +946,13 @@ def run(prop, tier):
         keys = sorted(nodes)
 
         # (b1) _main() in a repository subprocess, sys.stdin / sys.stdout replaced, module imported afresh per stream: all nodes
-        def inproc(chunk):
-            jobs = []
-            for key in chunk:
-                n = nodes[key]
-                args = ["-c"] if key[0] == "compact" else []
-                jobs.append({"args": args, "b64": base64.b64encode(stream_bytes(n["lines"])).decode()})
-                if n["unterm"]:
-                    jobs.append({"args": args, "b64": base64.b64encode(stream_bytes(n["lines"], False)).decode()})
-            res = iter(exec_jobs({"pp": jobs})["pp"])
-            got = {}
-            for key in chunk:
-                r = next(res)
-                got[key] = [(r["rc"], base64.b64decode(r["out_b64"]), r["err"]), None]
-                if nodes[key]["unterm"]:
-                    r = next(res)
-                    got[key][1] = (r["rc"], base64.b64decode(r["out_b64"]), r["err"])
-            return got
-        nchunk = max(1, len(keys) // WORKERS + 1)
-        with ThreadPoolExecutor(WORKERS) as ex:
-            inproc_res = {}
-            for g in ex.map(inproc, [keys[i:i + nchunk] for i in range(0, len(keys), nchunk)]):
-                inproc_res.update(g)
+        inproc_res = run_inproc(nodes, keys)
         judge_pp_nodes(rep, drift, nodes, inproc_res, "eliot.prettyprint._main()")
         _t('pp in-process')
 
         # (b2) the command itself as a subprocess with binary stdin: all short streams and a seeded sample of the longest
         crng = random.Random(SEED + 4)
-        cli_keys = [k for k in keys if k[2] == 0 and (len(k[1]) < ml or crng.randrange(16 if quick else 8) == 0)]
+        cli_keys = [k for k in keys if k[2] == 0 and (len(k[1]) < ml or crng.randrange(32 if quick else 8) == 0)]
 
         def cli(key):
             n = nodes[key]
@@ -882,14 +965,60 @@ def run(prop, tier):
         rep.sample({"stream": [l["cls"] for l in nodes[some]["lines"]], "expected_blocks": nodes[some]["kinds"],
                     "stdout": inproc_res[some][0][1].decode("utf-8", "replace")[:500]})
 
+        # (b3) the witness sweep: every witness of every table as a stream of its own through _main() in both formats (message lines
+        # in all-ASCII and in raw UTF-8 encoding; every foreign line of every class), and all of them through the command as a
+        # subprocess, in batches whose output must be the sequence of the blocks that the single lines gave
+        kind_of = {rec[2][0]: rec[3][0] for rec in pps if len(rec[2]) == 1}
+        snodes = {}
+        for i, m in enumerate(sweep_messages()):
+            if any(has_linebreak(k) for k in m):
+                continue                                      # F6, exercised at function level
+            for tag, raw in sweep_encodings(m):
+                for fmt in ("pretty", "compact"):
+                    snodes[(fmt, ("eliot",), "s%04d%s" % (i, tag))] = {"lines": [{"cls": "eliot", "b64": base64.b64encode(raw).decode(), "msg": m}],
+                                                                       "kinds": [kind_of["eliot"]], "unterm": False}
+        for cls in sorted(FOREIGN):
+            for j, raw in enumerate(FOREIGN[cls]):
+                for fmt in ("pretty", "compact"):
+                    snodes[(fmt, (cls,), "f%03d" % j)] = {"lines": [{"cls": cls, "b64": base64.b64encode(raw).decode(), "msg": None}],
+                                                           "kinds": [kind_of[cls]], "unterm": False}
+        skeys = sorted(snodes)
+        sres = run_inproc(snodes, skeys)
+        judge_pp_nodes(rep, drift, snodes, sres, "eliot.prettyprint._main() [witness sweep]")
+        batches = []
+        for (fmt, cls), grp in itertools.groupby(skeys, key=lambda k: (k[0], k[1][0])):
+            grp = list(grp)
+            batches.extend((fmt, grp[i:i + 40]) for i in range(0, len(grp), 40))
+
+        def sweep_batch(b):
+            fmt, grp = b
+            return run_pp(["-c"] if fmt == "compact" else [], stream_bytes([snodes[k]["lines"][0] for k in grp]))
+        with ThreadPoolExecutor(WORKERS) as ex:
+            bres = list(ex.map(sweep_batch, batches))
+        for (fmt, grp), (rc, out, err) in zip(batches, bres):
+            rep.count_case(["pp-sweep", fmt, grp[0][1], grp[0][2]], True)
+            rep.cov["traces_validated_against_impl"] += 1
+            if all(sres[k][0][0] == 0 for k in grp) and rc == 0 and out == b"".join(sres[k][0][1] for k in grp):
+                continue                                      # the blocks of the single lines, which were judged one by one
+            with ThreadPoolExecutor(WORKERS) as ex:           # locate: the lines of the batch one by one through the command
+                one = dict(ex.map(lambda k: (k, [run_pp(["-c"] if fmt == "compact" else [], stream_bytes(snodes[k]["lines"])), None]), grp))
+            before = len(rep.violations)
+            judge_pp_nodes(rep, drift, snodes, one, "the eliot-prettyprint command [witness sweep]")
+            if len(rep.violations) == before:
+                lines = [snodes[k]["lines"][0] for k in grp]
+                rep.violation("the eliot-prettyprint command%s: %s on a stream of %d %s lines although each line alone is handled" % (
+                    " -c" if fmt == "compact" else "", ("aborted (exit status %s): %s" % (rc, err[-300:])) if rc else
+                    "the output is not the sequence of the blocks of its lines", len(lines), grp[0][1][0]), pp_replay_obj(fmt, lines))
+        _t('pp sweep')
+
         # soak: long random streams; the output must be the concatenation of the outputs for the single lines
         srng = random.Random(SEED + 2)
         for s in range(1 if quick else 6):
             fmt = ["pretty", "compact"][s % 2]
             lines = [draw_line(srng.choice(["eliot"] * 3 + sorted(FOREIGN)), srng, pool) for _ in range(40 if quick else 120)]
             args = ["-c"] if fmt == "compact" else []
-            with ThreadPoolExecutor(WORKERS) as ex:
-                singles = list(ex.map(lambda l: run_pp(args, stream_bytes([l])), lines))
+            singles = exec_jobs({"pp": [{"args": args, "b64": base64.b64encode(stream_bytes([l])).decode()} for l in lines]})["pp"]
+            singles = [(x["rc"], base64.b64decode(x["out_b64"])) for x in singles]
             rc, out, err = run_pp(args, stream_bytes(lines))
             rep.count_case(["pp-soak", s], True)
             rep.cov["traces_validated_against_impl"] += 1
@@ -928,11 +1057,24 @@ def run(prop, tier):
                                   {"engine": "c20", "module": "checks_c20", "kind": "filter", "expr": EXPR[c["expr"]], "lines": c["lines"],
                                    "expected": [[i - 1, what] for i, what in c["out"]], "field_msgs": c["msgs"], "clause": errs[0][:300]})
                     break
+        # the witness sweep through the command: identity and the copying expression on every sweep message
+        smsgs = sweep_messages()
+        slines = [json.dumps(m) for m in smsgs]
+        for expr in ("J", "dict(J)"):
+            text, exc = run_filter_cli(expr, slines)
+            rep.count_case(["filter-sweep", expr], True)
+            rep.cov["traces_validated_against_impl"] += 1
+            errs = judge_filter_output(text, exc, [(m, "whole") for m in smsgs])
+            if errs:
+                rep.violation("python -m eliot.filter %r on the witness sweep (%d lines): %s" % (expr, len(slines), errs[0][:500]),
+                              {"engine": "c20", "module": "checks_c20", "kind": "filter", "expr": expr, "lines": slines,
+                               "expected": [[i, "whole"] for i in range(len(slines))], "clause": errs[0][:300]})
         rep.sample({"filter_expr": EXPR[fcases[-1]["expr"]], "lines": fcases[-1]["lines"], "expected_written": fcases[-1]["out"], "stdout": fres[-1]["run"]})
         _t('filter')
         rep.cov["exhaustive"] = False
         rep.cov["records"] = {"layout": len(lay), "pp": len(pps), "filter": len(fls), "inprocess_runs_pp": len(nodes), "cli_runs_pp": len(cli_keys), "cli_runs_filter": len(cli),
-                              "messages_from_real_eliot_calls": sum(o["n"] for o in em_res)}
+                              "messages_from_real_eliot_calls": sum(o["n"] for o in em_res[:-1]), "sweep_messages": em_res[-1]["n"],
+                              "sweep_streams": len(snodes), "sweep_cli_batches": len(batches)}
     except MachineryFailure as e:
         print("MACHINERY-FAILURE %s: %s" % (prop, e))
         rep.finish()
